@@ -77,11 +77,38 @@ FORMS = [
     ("'name::count>>k'", _form([b, sv("::"), c, sv(">>"), k], _free(b) + _lit(c) + _lit(k), (b, py_int(c), 0 + py_int(k)))),
 ]
 
+def concretize(obligation_name, model_text):
+    """the solver's counter-model as an input for the real function: the name b is taken from the model (it satisfies the form's hypotheses: no ':' '<' '>'),
+    the two integer literals -- whose only modelled property is that int() accepts them -- are replaced by the real literals '2' and '3'"""
+    import re
+    m = re.search(r"#(?:post|no-raise):(.*?)/path", obligation_name)
+    if not m:
+        return None
+    label = m.group(1)
+    mb = re.search(r'\(define-fun b!text \(\) String "((?:[^"]|"")*)"\)', model_text or "")
+    b_ = mb.group(1).replace('""', '"') if mb else "mq"
+    if any(ch in b_ for ch in ":<>") or "\\u" in b_ or not b_.isprintable():
+        b_ = "mq"
+    forms = {"plain 'name'": ("{b}", None, 0), "'name::count'": ("{b}::2", 2, 0), "'name<<k'": ("{b}<<3", None, -3), "'name>>k'": ("{b}>>3", None, 3),
+             "'name::count<<k'": ("{b}::2<<3", 2, -3), "'name::count>>k'": ("{b}::2>>3", 2, 3)}
+    if label not in forms:
+        return None
+    text, cnt, off = forms[label]
+    text = text.replace("{b}", b_)
+    return ("import numpy as np, xdeps\n"
+            "t = xdeps.Table({'name': np.array(['a', 'b'], dtype=object)})\n"
+            f"text = {text!r}\n"
+            "got = t._split_name_count_offset(text)\n"
+            f"want = ({b_!r}, {cnt!r}, {off!r})\n"
+            "print('designator text', repr(text), '->', got, 'the statement reads it as', want)\n"
+            "assert tuple(got) == want, (text, got, want)\n")
+
+
 SPLIT_TEXT = Contract(
     module=M, qualname="Table._split_name_count_offset", params=dict(self=None, name=None),
     min_obligations=12,
     extra=dict(engine=StrSplitEngine, variant="text", forms=FORMS,
-               fields=dict(_sep_count="sep_count", _sep_previous="sep_previous", _sep_next="sep_next")),
+               fields=dict(_sep_count="sep_count", _sep_previous="sep_previous", _sep_next="sep_next"), concretize=concretize),
     note="the six spellings of the statement, for every separator-free name and all integer literals; SMT-LIB strings, cvc5 --strings-exp")
 
 CONTRACTS = []
